@@ -73,6 +73,14 @@ pub(crate) struct FlushWorker<T: Types> {
     /// `Relaxed` is sufficient because the actual data synchronization is
     /// provided by the `RwLock` on `PayloadCache`.
     done_seq: Arc<AtomicU64>,
+
+    /// A sync has failed and no later sync has succeeded yet: data that was
+    /// written, such as a purge record, may not be durable.
+    sync_failed: bool,
+
+    /// Chunk files whose removal was requested while `sync_failed` was set.
+    /// They are removed after the next successful sync.
+    postponed_removals: Vec<String>,
 }
 
 impl<T: Types> FlushWorker<T> {
@@ -97,6 +105,8 @@ impl<T: Types> FlushWorker<T> {
             files: vec![file_entry],
             cache,
             done_seq,
+            sync_failed: false,
+            postponed_removals: Vec::new(),
         }
     }
 
@@ -164,6 +174,7 @@ impl<T: Types> FlushWorker<T> {
                             e
                         );
                     }
+                    self.sync_failed = res.is_err();
                     res
                 } else {
                     Ok(())
@@ -182,6 +193,13 @@ impl<T: Types> FlushWorker<T> {
                         }
                     }
                 }
+            }
+
+            // Everything written so far is durable again: the removals that
+            // had to wait for that can be done now.
+            if !self.sync_failed && !self.postponed_removals.is_empty() {
+                let chunk_paths = std::mem::take(&mut self.postponed_removals);
+                Self::remove_chunks(chunk_paths)?;
             }
 
             // Handle the last non-flush request
@@ -223,13 +241,28 @@ impl<T: Types> FlushWorker<T> {
                 let _ = tx.send(stat);
             }
             WorkerRequest::RemoveChunks { chunk_paths } => {
-                info!("FlushWorker: RemoveChunks: {:?}", chunk_paths);
-                for path in chunk_paths {
-                    std::fs::remove_file(path)?;
+                if self.sync_failed {
+                    // The purge record that makes these chunks obsolete may
+                    // not be durable: keep them until a sync succeeds.
+                    info!(
+                        "FlushWorker: postpone RemoveChunks: {:?}",
+                        chunk_paths
+                    );
+                    self.postponed_removals.extend(chunk_paths);
+                } else {
+                    Self::remove_chunks(chunk_paths)?;
                 }
             }
         }
 
+        Ok(())
+    }
+
+    fn remove_chunks(chunk_paths: Vec<String>) -> Result<(), io::Error> {
+        info!("FlushWorker: RemoveChunks: {:?}", chunk_paths);
+        for path in chunk_paths {
+            std::fs::remove_file(path)?;
+        }
         Ok(())
     }
 
